@@ -310,8 +310,12 @@ impl<'a> Model<'a> {
                         if PRE_ERR.contains(pre) || POST_ERR.contains(post) {
                             return Err(MErr::Unmodelled("same-line neighbours under ignore_include".into()));
                         }
-                        if *syntax == 2 && !table.contains_key(name) {
-                            return Err(MErr::DefineNotFound(name.clone()));
+                        if *syntax == 2 {
+                            match table.get(name) {
+                                None => return Err(MErr::DefineNotFound(name.clone())),
+                                Some(Some(_)) => reinstall_predefined(table),
+                                Some(None) => {}
+                            }
                         }
                     } else {
                         if PRE_ERR.contains(pre) {
@@ -386,6 +390,9 @@ struct G<'r> {
     rng: &'r mut Rng,
     nfiles: usize,
     tokn: u64,
+    /// this scenario probes the predefined SV_COV_* macros; it then never removes them (whether they come
+    /// back after `undefineall is the implementation's business, not the statement's)
+    predef: bool,
 }
 
 impl<'r> G<'r> {
@@ -401,7 +408,7 @@ impl<'r> G<'r> {
         format!("G{}", self.rng.below(4))
     }
     fn cond_name(&mut self) -> String {
-        if self.rng.chance(1, 8) {
+        if self.predef && self.rng.chance(1, 4) {
             return self.rng.pick(&["SV_COV_START", "SV_COV_TOGGLE", "SV_COV_OK"]).to_string();
         }
         if self.rng.coin() {
@@ -450,16 +457,19 @@ impl<'r> G<'r> {
                     Line::Define { name: self.mname(), body: Some(format!("v_f{}@_{}", fid, self.tokn)) }
                 }
                 7 => Line::Define { name: self.gname(), body: None },
-                8 => Line::Undef { name: self.cond_name() },
+                8 => {
+                    let n = if self.rng.coin() { self.mname() } else { self.gname() };
+                    Line::Undef { name: n }
+                }
                 9 => {
-                    if self.rng.chance(1, 6) {
+                    if !self.predef && self.rng.chance(1, 6) {
                         Line::UndefAll
                     } else {
                         Line::Marker { tok: self.tok(fid) }
                     }
                 }
                 10 | 11 => {
-                    if self.rng.chance(1, 8) {
+                    if self.predef && self.rng.chance(1, 4) {
                         Line::Usage { name: self.rng.pick(&["SV_COV_START", "SV_COV_TOGGLE", "SV_COV_ERROR"]).to_string() }
                     } else {
                         Line::Usage { name: self.mname() }
@@ -643,7 +653,8 @@ impl Property for C10 {
         let neighbours = !ignore && rng.chance(1, 3);
         let mut files: BTreeMap<String, Vec<Line>> = BTreeMap::new();
         {
-            let mut g = G { rng: &mut rng, nfiles, tokn: 0 };
+            let predef = rng.chance(1, 3);
+            let mut g = G { rng: &mut rng, nfiles, tokn: 0, predef };
             for fid in 0..nfiles {
                 let n = 2 + g.rng.usize_below(5);
                 let proto = g.body(fid, n, 2, neighbours);
